@@ -639,7 +639,7 @@ func ruleLengthRequired(c *chk.Ctx) {
 		present := false
 		for _, cd := range ir.CondsAt(parse.Block()) {
 			if bo, ok := cd.V.(*ssa.BinOp); ok && bo.Op == token.EQL && !cd.Truth {
-				if s, isS := constString(bo.Y); isS && s == "" && bo.X == parse.Call.Args[0] {
+				if s, isS := constString(bo.Y); isS && s == "" && (bo.X == parse.Call.Args[0] || ir.SameValue(bo.X, parse.Call.Args[0]) || ir.SameFieldLoad(bo.X, parse.Call.Args[0])) {
 					present = true
 				}
 			}
@@ -748,7 +748,7 @@ func delimiterRecv(c *chk.Ctx) *delimModel {
 		written := map[*ssa.Alloc]int{}
 		c.P.ExtCalls(f, func(ci ssa.CallInstruction) {
 			if ir.IsCallTo(ci.Common(), "(*bytes.Buffer).Write") && isRead(ir.NormCell(ci.Common().Args[1]), 0) {
-				if al, ok := ci.Common().Args[0].(*ssa.Alloc); ok {
+				if al := soleAlloc(c, ci.Common().Args[0]); al != nil {
 					written[al]++
 				}
 			}
@@ -760,7 +760,7 @@ func delimiterRecv(c *chk.Ctx) *delimModel {
 		}
 		isBytes := func(v ssa.Value) bool {
 			call, ok := v.(*ssa.Call)
-			return ok && m.buf != nil && ir.IsCallTo(&call.Call, "(*bytes.Buffer).Bytes") && call.Call.Args[0] == ssa.Value(m.buf)
+			return ok && m.buf != nil && ir.IsCallTo(&call.Call, "(*bytes.Buffer).Bytes") && soleAlloc(c, call.Call.Args[0]) == m.buf
 		}
 		m.isAccum = func(v ssa.Value) bool {
 			n := 0
@@ -775,6 +775,11 @@ func delimiterRecv(c *chk.Ctx) *delimModel {
 		m.isErr = func(v ssa.Value) bool {
 			n := 0
 			for _, src := range c.P.SourcesStop(v, func(x ssa.Value) bool { return isRead(x, 1) }) {
+				if g := globalLoad(src); g != nil && g.Pkg != nil && g.Pkg.Pkg.Path() == "bufio" && g.Name() == "ErrBufferFull" {
+					// the "line incomplete, read on" sentinel used to prime a loop variable: the
+					// loop is left only with the read primitive's own result
+					continue
+				}
 				if !isRead(src, 1) {
 					return false
 				}
@@ -917,15 +922,15 @@ func ruleContentType(c *chk.Ctx) {
 	}
 	n := 0
 	for _, f := range chanMethods(c, "Recv") {
-		// strict: builds the mismatch error on got != want
-		ir.Instrs(f, func(ins ssa.Instruction) {
+		// strict: builds the mismatch error on got != want (in the receiver or a private helper)
+		c.P.ExtInstrs(f, func(ins ssa.Instruction) {
 			al, ok := ins.(*ssa.Alloc)
 			if !ok || types.Unalias(al.Type().(*types.Pointer).Elem()) != types.Type(mism) {
 				return
 			}
 			n++
 			built := false
-			for _, cd := range ir.CondsAt(al.Block()) {
+			for _, cd := range c.P.CondsWithin(al, f) {
 				if bo, ok := cd.V.(*ssa.BinOp); ok && bo.Op == token.NEQ && cd.Truth && bo.X.Type().String() == "string" {
 					built = true
 				}
@@ -944,8 +949,8 @@ func ruleContentType(c *chk.Ctx) {
 			}
 			c.Check(together, "TABLE.ctype", f, "mismatch reported with the payload", al.Pos(), "the mismatch error accompanies the payload", "the mismatch error is not returned together with the payload")
 		})
-		// lenient: clears error only on *Mismatch ∧ Got == ""
-		ir.Instrs(f, func(ins ssa.Instruction) {
+		// lenient: clears error only on *Mismatch ∧ Got == "" (the test may sit in a predicate helper)
+		c.P.ExtInstrs(f, func(ins ssa.Instruction) {
 			ta, ok := ins.(*ssa.TypeAssert)
 			if !ok || !ta.CommaOk {
 				return
@@ -960,15 +965,27 @@ func ruleContentType(c *chk.Ctx) {
 			// carrying nil, or a return of the nil constant
 			type clearing struct{ conds []ir.Cond }
 			var clears []clearing
+			taAnchors := []ssa.Instruction{ta}
+			if ta.Parent() != f {
+				taAnchors = anchorsIn(c, ta, f)
+			}
 			for _, r := range ir.Returns(f) {
-				if !ir.InstrDominates(ta, r) {
+				dominated := false
+				for _, a := range taAnchors {
+					if ir.InstrDominates(a, r) {
+						dominated = true
+					}
+				}
+				if !dominated {
 					continue
 				}
 				ev := ir.ReturnResult(r, 1)
 				if phi, isPhi := ev.(*ssa.Phi); isPhi {
 					for i, e := range phi.Edges {
 						if ir.IsNilConst(e) {
-							clears = append(clears, clearing{ir.EdgeConds(phi.Block().Preds[i], phi.Block())})
+							for _, a := range expandPredicateHelpers(c, ir.EdgeConds(phi.Block().Preds[i], phi.Block()), 0) {
+								clears = append(clears, clearing{a})
+							}
 						}
 					}
 					continue
@@ -1140,6 +1157,24 @@ func dedupStrings(in []string) []string {
 			seen[s] = true
 			out = append(out, s)
 		}
+	}
+	return out
+}
+
+// soleAlloc resolves v to the one local variable it denotes: the Alloc itself,
+// or a parameter of a private helper to which every call site passes the same
+// Alloc.
+func soleAlloc(c *chk.Ctx, v ssa.Value) *ssa.Alloc {
+	if al, ok := v.(*ssa.Alloc); ok {
+		return al
+	}
+	var out *ssa.Alloc
+	for _, src := range c.P.SourcesStop(v, func(x ssa.Value) bool { _, isAl := x.(*ssa.Alloc); return isAl }) {
+		al, ok := src.(*ssa.Alloc)
+		if !ok || (out != nil && out != al) {
+			return nil
+		}
+		out = al
 	}
 	return out
 }
